@@ -96,7 +96,7 @@ def descr(t):
     if isinstance(t, pydsdl.FixedLengthArrayType):
         return {"k": "farr", "n": t.capacity, "e": descr(t.element_type)}
     if isinstance(t, pydsdl.VariableLengthArrayType):
-        return {"k": "varr", "cap": t.capacity, "e": descr(t.element_type)}
+        return {"k": "varr", "cap": t.capacity, "wcap": t.capacity, "e": descr(t.element_type)}
     if isinstance(t, pydsdl.CompositeType):
         return {"k": "comp", "name": str(t)}
     raise MachineryFailure("unexpected field type %r" % (t,))
@@ -1040,7 +1040,7 @@ def ttype(d):
         return {"k": "comp", "name": cps(d["name"])}
     if k == "farr":
         return {"k": "farr", "n": d["n"], "e": ttype(d["e"])}
-    return {"k": "varr", "cap": d["cap"], "e": ttype(d["e"])}
+    return {"k": "varr", "cap": d["cap"], "wcap": d["cap"], "e": ttype(d["e"])}
 
 
 def read_state(comp, o, oid):
@@ -1268,7 +1268,7 @@ def selftests(ctx, pkg, hists, recs):
                          f is not None and f.kind == "violation" and f.clause == "pyobj.accept")
             bad2 = json.loads(json.dumps(good))
             for v in bad2:
-                v[0]["post"][0] = "min" if v[0]["post"][0] != "min" else "max"
+                v[0]["post"][0] = "None"  # the model would say: the first field is unset after construction
             f2, _, _ = run_history(pkg.comps, pkg.ns, comp, kinds, build_trie(bad2), actions, 0)
             ctx.selftest("perturbed expected post-state is reported by the replay driver", f2 is not None and f2.kind == "violation")
             done = 1
@@ -1350,6 +1350,8 @@ def part_spec_to_code(ctx, pkg_a):
     groups = emit_all(ctx, ctx.pick("PyObject_emitq", "PyObject_emit"), "MaxHist=3 CtorSpecial=1 (emission)")
     if not pkg_a.fine_api:
         ctx.not_exercised("build_namespace_tree/create_default_generators path (fell back to nunavut.generate_types)")
+    import time
+    print("T emitted", time.time() - ctx.t0)
     nhist, nsteps, nskip = spec_to_code(ctx, pkg_a, groups, ctx.pick(1, 3), True)
     g0 = groups[(1, True)][len(groups[(1, True)]) // 2]
     ctx.sample({"direction": "spec->code", "class": "c18a.U1v*.1.0 (union of int, byte array, composite)", "history": g0})
@@ -1377,16 +1379,25 @@ def part_code_to_spec(ctx, pkg_a):
             ctx.sample({"direction": "code->spec", "event": {k: (v if len(json.dumps(v)) < 400 else "...") for k, v in ex.items()}, "info": meta[ex["id"]]})
     ctx.cov["code_to_spec"] = {ev: sum(1 for r in recs if r["ev"] == ev) for ev in ("ctor", "assign", "model", "rt")}
     ctx.cov["code_to_spec"]["generated_classes"] = sum(len(p.comps) + len(p.services) for p in pkgs)
+    import time
+    print("T recorded", time.time() - ctx.t0, ctx.cov["code_to_spec"])
     judge(ctx, recs, meta)
     return recs
 
 
 def run(ctx):
+    import time
+    t0 = time.time()
     part_model(ctx)
+    print("T model", time.time() - t0)
     pkg_a = Pkg(ctx, "c18a", abstract_files("c18a"))
+    print("T pkg", time.time() - t0)
     groups = part_spec_to_code(ctx, pkg_a)
+    print("T s2c", time.time() - t0)
     recs = part_code_to_spec(ctx, pkg_a)
+    print("T c2s", time.time() - t0)
     selftests(ctx, pkg_a, groups, recs)
+    print("T self", time.time() - t0)
 
     ctx.cov["rule"] = ("spec->code: every complete history emitted by PyObject.tla (3 kind vectors x struct/union, constructor + 2 actions) on "
                        "%d concrete classes; distinct = action sequence per configuration, non-trivial = contains a non-valid candidate or "
